@@ -414,6 +414,7 @@ func (w *vfCFWorld) template(bt, ft, hard int) (string, error) {
 		return d, nil
 	}
 	dir := filepath.Join(w.scratch, key)
+	os.RemoveAll(dir) // left by an earlier, aborted run of the driver (other chain)
 	if err := os.MkdirAll(dir, 0o755); err != nil {
 		return "", err
 	}
